@@ -259,6 +259,17 @@ func histRunC10(c *Ctx) {
 					r2 := gtMustParse(refText)
 					r2.ReinitIndexes()
 					_, e2 := support.TBE(r2, feed(boots(false)), 1, false, false, false, 0.3, nil, nil)
+					// (1b) bootstrap records that all carry the identifier 0 (a channel filled by hand): the supports are the same
+					r0 := gtMustParse(refText)
+					ch0 := make(chan tree.Trees, 4)
+					for _, bt := range boots(false) {
+						mcrt.Send(ch0, tree.Trees{Tree: bt})
+					}
+					mcrt.Close(ch0)
+					if e0 := support.FBP(r0, ch0, 1, nil); (e0 != nil) != (e1 != nil) || (e0 == nil && histSplitDesc(r0.Newick()) != histSplitDesc(r1.Newick())) {
+						key, what = "C10/history/fbp-records-without-identifiers", fmt.Sprintf("FBP with bootstrap records numbered 0,1,2: %s (%v); with records that all carry the identifier 0: %s (%v)", r1.Newick(), e1, r0.Newick(), e0)
+						return
+					}
 					// (2) histories, one Supporter used twice
 					sup := support.NewSupporter()
 					h1 := histTree(a)
